@@ -371,6 +371,6 @@ def parts(tier):
     q = tier == "quick"
     return [Part("string", oracle_string, strategy=string_strategy(), n=1200 if q else 48000),
             Part("sidecar", oracle_sidecar, strategy=sidecar_strategy(), n=400 if q else 16000),
-            Part("table", oracle_table, strategy=table_strategy(), n=300 if q else 12000),
+            Part("table", oracle_table, strategy=table_strategy(), n=450 if q else 12000),
             Part("dataset", oracle_dataset, strategy=dataset_strategy(), n=40 if q else 1600),
             Part("sort", oracle_sort, strategy=issue_strategy, n=1500 if q else 48000)]
